@@ -217,6 +217,19 @@ pub fn like_stream(ctx: &mut Ctx) {
 	like_case!(ctx; Vec<(u32,)>, &'static [(u32,)] => BinaryHeap<u32>, true, |o| &o[..]);
 	like_case!(ctx; TwinU32, &'static TwinU32 => TwinU32, false, |o| o);
 	like_case!(ctx; u32, parity_scale_codec::Ref<'static, u32, u32> => u32, false, |o| parity_scale_codec::Ref::from(o));
+	// compact references stand for the compact value: `CompactRef(&x)` encodes as `Compact(x)`
+	// (every width; and through `CompactAs` for a newtype). These impls overflow rustc's trait
+	// solver inside the probe matrix, so they are exercised at value level only.
+	like_values::<Compact<u8>, CompactRef<'static, u8>, Compact<u8>>(ctx, "CompactRef<u8> as Compact<u8>", true, false, |o| CompactRef(&o.0));
+	like_values::<Compact<u16>, CompactRef<'static, u16>, Compact<u16>>(ctx, "CompactRef<u16> as Compact<u16>", true, false, |o| CompactRef(&o.0));
+	like_values::<Compact<u32>, CompactRef<'static, u32>, Compact<u32>>(ctx, "CompactRef<u32> as Compact<u32>", true, false, |o| CompactRef(&o.0));
+	like_values::<Compact<u64>, CompactRef<'static, u64>, Compact<u64>>(ctx, "CompactRef<u64> as Compact<u64>", true, false, |o| CompactRef(&o.0));
+	like_values::<Compact<u128>, CompactRef<'static, u128>, Compact<u128>>(ctx, "CompactRef<u128> as Compact<u128>", true, false, |o| CompactRef(&o.0));
+	like_values::<Compact<crate::derived::Wrapped>, CompactRef<'static, crate::derived::Wrapped>, Compact<crate::derived::Wrapped>>(
+		ctx, "CompactRef<Wrapped> as Compact<Wrapped>", true, false, |o| CompactRef(&o.0));
+	like_values::<Compact<u32>, &'static Compact<u32>, Compact<u32>>(ctx, "&Compact<u32> as Compact<u32>", true, false, |o| o);
+	like_values::<Compact<u64>, Box<Compact<u64>>, Compact<u64>>(ctx, "Box<Compact<u64>> as Compact<u64>", true, false, |o| Box::new(Compact(o.0)));
+	like_values::<Vec<Compact<u32>>, Vec<&'static Compact<u32>>, Vec<Compact<u32>>>(ctx, "Vec<&Compact<u32>> as Vec<Compact<u32>>", true, false, |o| o.iter().collect::<Vec<_>>());
 	#[cfg(feature = "bytes-f")]
 	{
 		like_case!(ctx; Vec<u8>, bytes::Bytes => Vec<u8>, false, |o| bytes::Bytes::from(o.clone()));
